@@ -64,6 +64,10 @@ def gen(tier, rng, own=()):
         for rep in range(6 if tier == "quick" else 40):
             st = defgen.make_stream(rng, ["dynamic15", "dynamic15"] if rep % 2 else ["dynamic15", "fixed", "dynamic15"], fault=fault, fault_block=1 if rep % 2 else 2)
             runs(st, 0, {"family": "fault:" + fault}, inflfam.KERNEL_CPUS)
+    # incomplete distance code sets with many long codes (the RFC leaves incomplete sets to the decoder: it may refuse them, but a decoder that
+    # takes them must decode the literals and recognise the end of the final block)
+    for dl in defgen.deep_incomplete_dist_sets(rng, 12 if tier == "quick" else 120):
+        runs(defgen.incomplete_dist_stream(rng, dl), 0, {"family": "incomplete-deep-distance-set"}, inflfam.KERNEL_CPUS)
     # wrapper faults
     text = bytes(igz.corpus(rng, "text", 200)); raw = zlib.compress(text)[2:-4]
     g = bytearray(inflfam.wrap_stream(1, raw, text))
